@@ -25,6 +25,7 @@ func init() {
 
 func checkC12(c *Ctx) {
 	p := c.P
+	checkC12OwnersAll(c)
 	r := c.Rule("C12.records-survive", "association mode deletes records of the related model only under Unscope; otherwise detaches with nil foreign keys", 7)
 	dbT := p.Named(pkgGorm, "DB")
 	assocT := p.Named(pkgGorm, "Association")
@@ -344,6 +345,9 @@ func checkC12(c *Ctx) {
 
 func checkC15(c *Ctx) {
 	p := c.P
+	// the ORDER BY a finisher adds (primary key asc/desc, batch order) lives in a merged clause: merging must not write into
+	// the backing array of the chain it was derived from (same rule as C06.merge-alias)
+	checkC06MergeAlias(c, c.Rule("C15.clause-merge", "MergeClause never appends onto / stores into a slice shared with the chain the finisher was derived from (ORDER BY, LIMIT, WHERE added by First/Last/FindInBatches stay per chain)", 16))
 	dbT := p.Named(pkgGorm, "DB")
 	stmtT := p.Named(pkgGorm, "Statement")
 	raiseF := p.Field(stmtT, "RaiseErrorOnNotFound")
@@ -525,7 +529,7 @@ func checkC15(c *Ctx) {
 			rcg.Bad(fib.Name(), "cursor", fib.Body.Pos(), "FindInBatches no longer adds a `primary key > last` cursor condition; rule lost its anchor")
 		} else {
 			store, hasAnd := findRegroup(p, fib)
-			okc := store != nil && hasAnd
+			okc := store != nil && hasAnd && regroupScansAll(fib, store)
 			if okc {
 				gs := p.Guards(fib, nil)
 				// the regroup happens before the cursor is first added and on the statement the cursor extends
@@ -806,6 +810,7 @@ func checkC20(c *Ctx) {
 	checkC20NameAgree(c)
 	checkC20CreateAgree(c)
 	checkC20DDLTable(c)
+	checkC20AddExec(c)
 
 	// ---- C20.guarded-add ----
 	rg := c.Rule("C20.guarded-add", "every additive DDL call in AutoMigrate is conditional on absence (and MigrateColumn on presence)", 6)
